@@ -413,7 +413,8 @@ def _run_case(c):
         except Exception as e:  # noqa
             problems.append(["utf8-bytes", "bytes input raised %s" % type(e).__name__])
     if problems:
-        o["problems"] = problems
+        fresh = [p for p in problems if p[0] == "fresh-containers"]
+        o["problems"] = fresh[:2] + [p for p in problems if p[0] != "fresh-containers"]
     return o
 
 
@@ -451,7 +452,21 @@ def direct_checks(c, obs):
     return [("%s: %s" % (k, msg), None) for k, msg in obs.get("problems", [])]
 
 
+def _history_effect(c):
+    """model-free: does the history change the tree returned for the case's text?"""
+    return run_impl(c).get("tree") != run_impl(dict(c, history=[])).get("tree")
+
+
 def shrink(c, is_bad):
+    if "history" in c and not _history_effect(c):
+        # the failure does not depend on the history
+        if is_bad({k: v for k, v in c.items() if k != "history"}):
+            c = {k: v for k, v in c.items() if k != "history"}
+    elif "history" in c:
+        # keep the failure one of the history: every candidate must still return a different tree
+        # with the history than without it
+        inner = is_bad
+        is_bad = lambda k: _history_effect(k) and inner(k)   # noqa: E731
     if "history" in c:
         # shorten the history first, then the texts of the remaining steps, then the text itself
         hist = list(c["history"])
